@@ -20,6 +20,7 @@ pub mod c19;
 pub mod c20;
 pub mod clock;
 pub mod reports;
+pub mod sendfault;
 
 /// entry for internal child-process sub-commands
 pub fn child_main(args: &[String]) -> i32 {
@@ -31,6 +32,9 @@ pub fn child_main(args: &[String]) -> i32 {
     }
     if args.first().map(|s| s.as_str()) == Some("--c12-child") {
         return c12::child_main(&args[1..]);
+    }
+    if args.first().map(|s| s.as_str()) == Some("--c06-fault-child") {
+        return sendfault::child_main(&args[1..]);
     }
     if args.first().map(|s| s.as_str()) == Some("--c19-child") {
         return c19::child_main(&args[1..]);
